@@ -169,8 +169,119 @@ def build_conv(repo, external=(), canary=None, with_witness=True, boost=False):
     return b
 
 
+BINARY_KINDS = ["Sum", "Difference", "Product", "Quotient", "LessThan", "LessThanOrEqualTo", "EqualTo", "GreaterThan", "GreaterThanOrEqualTo"]
+
+
+def normalized_locals(w, i, j):
+    """[(line index, local, argument)] of the statements `let X = normalize_weak_head(ARG, definitions_context);` in [i, j]"""
+    out = []
+    for k in range(i, j + 1):
+        m = re.match(r"^\s*let (\w+) = normalize_weak_head\((\w+), definitions_context\);$", w.lines[k])
+        if m:
+            out.append((k, m.group(1), m.group(2)))
+    return out
+
+
+def itermut_skip_to_index_loop(w, i, sc):
+    """R21: `for (P0, P1, P2) in V.iter_mut().skip(S) { *P1 = E1; *P2 = E2; }` ->
+    `for j in S..V.len() { let n0 = V[j].0; let new1 = { let P1 = &V[j].1; E1 }; let new2 = { let P2 = &V[j].2; E2 }; V.set(j, (n0, new1, new2)); }`
+    (E1 / E2 copied verbatim; refused unless each Ek mentions, of the pattern variables, only its own)."""
+    m = re.match(r"^(\s*)for \((\w+), (\w+), (\w+)\) in (\w+)\.iter_mut\(\)\.skip\((\w+)\) \{$", w.lines[i])
+    if not m:
+        raise LostAnchor(f"{w._where(i)}: expected `for (a, b, c) in V.iter_mut().skip(S) {{`")
+    ind, p0, p1, p2, vec, skip = m.groups()
+    j = w.block_end(i)
+    body = [l for l in w.lines[i + 1 : j] if l.strip() and not l.strip().startswith("//")]
+    assigns = {}
+    for l in body:
+        ma = re.match(r"^\s*\*(\w+) = (.*);$", l)
+        if not ma or ma.group(1) not in (p1, p2) or ma.group(1) in assigns:
+            raise LostAnchor(f"{w._where(i)}: the body of the iter_mut loop must be `*{p1} = ..; *{p2} = ..;` on one line each")
+        assigns[ma.group(1)] = ma.group(2)
+    if set(assigns) != {p1, p2}:
+        raise LostAnchor(f"{w._where(i)}: the iter_mut loop must assign both `{p1}` and `{p2}`")
+    for own, other in ((p1, p2), (p2, p1)):
+        if re.search(r"\b%s\b" % re.escape(other), assigns[own]):
+            raise LostAnchor(f"{w._where(i)}: the new value of `{own}` mentions `{other}`; rule R21 does not apply")
+    idx = re.search(r"open\(\w+, (\w+), ", assigns[p1])
+    rep = lambda t: t.replace("$NA", "new_" + p1).replace("$ND", "new_" + p2).replace("$IDX", idx.group(1) if idx else "i_index").rstrip("\n").split("\n")
+    new = [ind + f"for j in itj: {skip}..{vec}.len()"] + rep(sc["normalize_weak_head.let.subst.loop"]) + [ind + "{"] + rep(sc["normalize_weak_head.let.subst.body"]) + [
+        ind + f"    let entry_name = {vec}[j].0;",
+        ind + f"    let new_{p1} = {{ let {p1} = &{vec}[j].1; {assigns[p1]} }};",
+        ind + f"    let new_{p2} = {{ let {p2} = &{vec}[j].2; {assigns[p2]} }};"] + rep(sc["normalize_weak_head.let.subst.set"]) + [
+        ind + f"    {vec}.set(j, (entry_name, new_{p1}, new_{p2}));", ind + "}"]
+    w.rewrite_lines("R21-iter-mut-skip", i, j, new, note="in-place update loop over V.iter_mut().skip(S) as an index loop with Vec::set; the two right-hand sides are copied verbatim and each reads only its own old component")
+
+
 def weave_normalize(w, sc):
-    raise LostAnchor("normalize_weak_head: weaving not built yet")
+    w.contract(sc["normalize_weak_head.contract"], ret="r", attrs="#[verifier::exec_allows_no_decreases_clause]")
+    w.body_first(sc["normalize_weak_head.first"])
+    # hole arm: R10 + R9
+    i, j = arm(w, r"^        Unifier\(subterm, subterm_shift\) => \{$")
+    k = w.find(r"^\s*\{ subterm\.borrow\(\)\.clone\(\) \}\.map_or_else\($", 1, i)
+    if k > j:
+        raise LostAnchor(f"{w._where(i)}: hole arm of normalize_weak_head not in the expected shape")
+    generic_map_or_else(w, k)
+    i, j = arm(w, r"^        Unifier\(subterm, subterm_shift\) => \{$")
+    if hole_read(w, i, j) != 1:
+        raise LostAnchor(f"{w._where(i)}: expected exactly one hole read in the hole arm")
+    insert_at(w, i + 1, sc["normalize_weak_head.hole"], anchor="Unifier arm")
+    # R3
+    U.rewrite_bigint_ops(w)
+    # Quotient: R10 on checked_div(..).map_or_else
+    i, j = arm(w, r"^        Quotient\(\w+, \w+\) => \{$")
+    k = w.find(r"^\s*\w+\.checked_div\(\w+\)\.map_or_else\($", 1, i)
+    if k < j:
+        generic_map_or_else(w, k)
+    # application
+    i, j = arm(w, r"^        Application\(applicand, argument\) => \{$")
+    locs = normalized_locals(w, i, j)
+    if len(locs) != 1 or locs[0][2] != "applicand":
+        raise LostAnchor(f"{w._where(i)}: application arm: expected one `let X = normalize_weak_head(applicand, ..)`")
+    insert_at(w, locs[0][0] + 1, sc["normalize_weak_head.app"].replace("$N", locs[0][1]), anchor="after the head is normalised")
+    # negation
+    i, j = arm(w, r"^        Negation\((\w+)\) => \{$")
+    locs = normalized_locals(w, i, j)
+    if len(locs) != 1:
+        raise LostAnchor(f"{w._where(i)}: negation arm: expected one normalised operand")
+    insert_at(w, locs[0][0] + 1, sc["normalize_weak_head.neg"].replace("$N", locs[0][1]).replace("$T", locs[0][2]), anchor="after the operand is normalised")
+    # the nine binary arms
+    for kind in BINARY_KINDS:
+        i, j = arm(w, r"^        %s\((\w+), (\w+)\) => \{$" % kind)
+        t1, t2 = re.match(r"^        %s\((\w+), (\w+)\) => \{$" % kind, w.lines[i]).groups()
+        locs = normalized_locals(w, i, j)
+        if len(locs) != 2 or locs[0][2] != t1 or locs[1][2] != t2:
+            raise LostAnchor(f"{w._where(i)}: {kind} arm: expected the two operands to be normalised in order")
+        insert_at(w, locs[1][0] + 1, sc["normalize_weak_head.binary"].replace("$KIND", kind).replace("$T1", t1).replace("$T2", t2).replace("$N1", locs[0][1]).replace("$N2", locs[1][1]), anchor=f"{kind}: after both operands are normalised")
+    # conditional
+    i, j = arm(w, r"^        If\(condition, then_branch, else_branch\) => \{$")
+    locs = normalized_locals(w, i, j)
+    if len(locs) != 1 or locs[0][2] != "condition":
+        raise LostAnchor(f"{w._where(i)}: conditional arm: expected one `let X = normalize_weak_head(condition, ..)`")
+    insert_at(w, locs[0][0] + 1, sc["normalize_weak_head.if"].replace("$N", locs[0][1]), anchor="after the condition is normalised")
+    # definition group
+    i_let, j_let = arm(w, r"^        Let\(definitions, body\) => \{$")
+    k = w.find(r"^\s*let mut definitions = definitions\.clone\(\);$", 1, i_let)
+    w.rewrite_lines("R1-clone-definitions", k, k, [w.lines[k].replace("definitions.clone()", "clone_definitions(definitions)")], note="Vec::clone of the definitions through a stub that returns a vector with equal elements")
+    insert_at(w, k, sc["normalize_weak_head.let.pre"], anchor="Let arm")
+    i_for = w.find(r"^\s*for i in 0\.\.definitions\.len\(\) \{$", 1, i_let)
+    j_for = w.block_end(i_for)
+    # tail call after the loop
+    insert_at(w, j_for + 1, sc["normalize_weak_head.let.after"], anchor="after the substitution loop")
+    # body = open(&body, ..)
+    k = w.find(r"^\s*body = open\(&body, \w+, &unfolded_definition, 0\);$", 1, i_for)
+    insert_at(w, k + 1, sc["normalize_weak_head.let.body.post"], anchor="after the body is substituted")
+    insert_at(w, k, sc["normalize_weak_head.let.body.pre"], anchor="before the body is substituted")
+    # the in-place substitution loop
+    k = w.find(r"^\s*for \(\w+, \w+, \w+\) in definitions\.iter_mut\(\)\.skip\(i\) \{$", 1, i_for)
+    itermut_skip_to_index_loop(w, k, sc)
+    # the unfolding
+    U.hoist_argument(w, r"^\s*let unfolded_definition = open\($", r"^\s*&Term \{$", "inserted", sc["normalize_weak_head.let.inserted.post"])
+    w.after(r"^\s*let unfolded_definition = open\($", sc["normalize_weak_head.let.unfolded.post"])
+    k = w.find(r"^\s*let \(variable, annotation, definition\) = &definitions\[i\];$", 1, i_for)
+    insert_at(w, k + 1, sc["normalize_weak_head.let.destructured"], anchor="after the i-th definition is read")
+    insert_at(w, i_for + 1, sc["normalize_weak_head.let.body.first"], anchor="loop body start")
+    w.for_invariant(1, "it", sc["normalize_weak_head.let.loop"], regex=r"^\s*for i in 0\.\.definitions\.len\(\) \{$")
 
 
 def weave_unify(w, sc):
